@@ -125,7 +125,7 @@ func kindQuery(id int, kind string) []byte {
 }
 
 var capEvents = []string{"udp-ok", "udp-err", "udp-timeout", "udp-panic", "udp-small", "udp-malformed", "udp-d53tc", "tcp-d53tc",
-	"tcp-ok", "tcp-err", "tcp-panic", "tcp-small", "tcp-midframe", "tcp-idle-close", "tcp-timeout", "tcp-pipeline"}
+	"tcp-ok", "tcp-err", "tcp-panic", "tcp-small", "tcp-midframe", "tcp-idle-close", "tcp-timeout", "tcp-pipeline", "tcp-empty", "tcp-tinyframes"}
 
 func fireAndForgetUDP(addr string, p []byte) {
 	if c, err := net.Dial("udp", addr); err == nil {
@@ -171,6 +171,27 @@ func runCap(addr string, g *gateUpstream, k int, events []string) string {
 			_, _ = t.exchange(addr, []byte{1, 2, 3, 4, 5}, 300*time.Millisecond)
 			if t.c != nil {
 				t.c.Close()
+			}
+		case "tcp-empty":
+			// zero-length frames (length prefix 0x0000), several on one connection, then close
+			if c, err := net.DialTimeout("tcp", addr, time.Second); err == nil {
+				for j := 0; j < 3; j++ {
+					_, _ = c.Write([]byte{0, 0})
+					time.Sleep(5 * time.Millisecond)
+				}
+				time.Sleep(20 * time.Millisecond)
+				c.Close()
+			}
+		case "tcp-tinyframes":
+			// frames of 1, 14 and 0 bytes back to back in one segment, then a well-formed query
+			if c, err := net.DialTimeout("tcp", addr, time.Second); err == nil {
+				b := []byte{0, 1, 9, 0, 14, 1, 2, 3, 4, 5, 6, 7, 8, 9, 10, 11, 12, 13, 14, 0, 0}
+				q := kindQuery(id, "ok")
+				b = append(b, be16(len(q))...)
+				b = append(b, q...)
+				_, _ = c.Write(b)
+				time.Sleep(50 * time.Millisecond)
+				c.Close()
 			}
 		case "tcp-midframe":
 			if c, err := net.DialTimeout("tcp", addr, time.Second); err == nil {
